@@ -103,6 +103,17 @@ func main() {
 		}
 	}
 	if *replay != "" {
+		if seed, rounds, ok := raceReplay(*replay); ok { // a finding of the race search: repeat the search
+			rr := runRaceStats(seed, rounds)
+			w.Evals(rr.Rounds)
+			for _, v := range rr.Violations {
+				w.Violate(v.Kind, v.What, map[string]any{"race_search": "hC07 -race-stats", "seed": seed, "rounds": rounds, "detail": v.Detail})
+			}
+			if err := w.Close(); err != nil {
+				panic(err)
+			}
+			return
+		}
 		in, err := loadReplay(*replay)
 		if err != nil {
 			panic(err)
@@ -207,6 +218,26 @@ func main() {
 	if err := w.Close(); err != nil {
 		panic(err)
 	}
+}
+
+func raceReplay(path string) (uint64, int, bool) {
+	b, err := os.ReadFile(path)
+	if err != nil {
+		return 0, 0, false
+	}
+	var f struct {
+		Replay struct {
+			Input struct {
+				Race   string `json:"race_search"`
+				Seed   uint64 `json:"seed"`
+				Rounds int    `json:"rounds"`
+			} `json:"input"`
+		} `json:"replay"`
+	}
+	if json.Unmarshal(b, &f) != nil || f.Replay.Input.Race == "" {
+		return 0, 0, false
+	}
+	return f.Replay.Input.Seed, f.Replay.Input.Rounds, true
 }
 
 func loadReplay(path string) (*Input, error) {
